@@ -430,3 +430,46 @@ def rule_eq_allpaths(ctx):
                             'differing there are equal, yet Hash and observers still distinguish them' % fl)
     r.check_floor()
     return r
+
+
+# ---------------------------------------------------------------- HASH-FRAMED (round 10)
+def rule_hash_framed(ctx):
+    """a composite that hashes a variable number of children, each with a hash of variable length, encodes where the list ends"""
+    from .panics import loops, loop_blocks
+    from ..ir import walk
+    f = ctx.facts()
+    r = RuleResult('HASH-FRAMED', 'a hand-written Hash impl that feeds a variable number of elements whose own hash has variable length '
+                                  '(child sources behind dyn Source / Box) also feeds the element count (or hashes the vector as a whole, '
+                                  'which std prefixes with its length): otherwise the end of a nested child list is not encoded and two '
+                                  'trees with different text feed the hasher the identical call sequence')
+    for b in f.body_list:
+        if b.promoted is not None or b.d['kind'] == 'Closure' or b.d.get('impl_trait') != HASH or b.d.get('derived'):
+            continue
+        adt = b.d.get('impl_adt')
+        if adt not in f.adts:
+            continue
+        lps = loops(b)
+        for h, srcs in lps.items():
+            blk = loop_blocks(b, h, srcs)
+            elems = [(pt, t) for pt, t in b.calls() if pt[0] in blk and t.get('callee') and t['callee']['name'] == 'hash'
+                     and t.get('arg_tys') and ('dyn ' in t['arg_tys'][0] or 'BoxSource' in t['arg_tys'][0])]
+            if not elems:
+                continue
+            framed = False
+            for pt, t in b.calls():
+                c = t.get('callee') or {}
+                if c.get('name') in ('hash', 'write_usize', 'write_length_prefix', 'write_u64', 'write_u32') and t['args']:
+                    e = b.expr_of_operand(t['args'][0])
+                    if any(isinstance(x, tuple) and x and x[0] == 'call' and x[1].rsplit('::', 1)[-1] in ('len', 'count') for x in walk(e)):
+                        framed = True
+            r.site('%s: loop over child sources - element count %s' % (b.path, 'hashed' if framed else 'not hashed'), elems[0][1]['s'],
+                   'ok' if framed else 'violation')
+            if not framed:
+                r.violation('%s:unframed' % b.path, elems[0][1]['s'], b.path,
+                            'the impl hashes a type tag and then each child, but neither the number of children nor a terminator: the end '
+                            'of a nested (boxed) child list is not encoded, so Concat[Replace{insert(3,"X")}(Concat["ab","cd"])] (text '
+                            '"abcXd") and Concat[Replace{insert(3,"X")}(Concat["ab"]), "cd"] (text "abXcd") feed every hasher the '
+                            'identical call sequence and always collide')
+    if not r.sites:
+        r.info('no hand-written Hash impl loops over child sources')
+    return r
